@@ -146,7 +146,8 @@ Proof. exact eq_tuple_function_refuted_lemma. Qed.
 Print Assumptions eq_tuple_function_refuted.
 
 (* ---- sequences: a loud failure is tolerated only when the argument is a function representation
-   (the documented restriction); Len and \o on strings are refuted (known findings) ---- *)
+   (the documented restriction); Len, \o, Tail and SubSeq on strings are refuted (known findings:
+   TLC treats strings as sequences for exactly these four) ---- *)
 Theorem len_partial : forall a, (forall s, a <> VStr s) -> small_len a ->
   allowed (is_funrep a) (spec_len (norm a)) (ModuleLen a).
 Proof. exact len_partial_lemma. Qed.
@@ -164,16 +165,23 @@ Print Assumptions concat_string_refuted.
 Theorem head_correct : forall a, good a -> allowed (is_funrep a) (spec_head (norm a)) (ModuleHead a).
 Proof. exact head_lemma. Qed.
 Print Assumptions head_correct.
-Theorem tail_correct : forall a, good a -> allowed (is_funrep a) (spec_tail (norm a)) (ModuleTail a).
-Proof. exact tail_lemma. Qed.
-Print Assumptions tail_correct.
+Theorem tail_partial : forall a, good a -> (forall s, a <> VStr s) ->
+  allowed (is_funrep a) (spec_tail (norm a)) (ModuleTail a).
+Proof. exact tail_partial_lemma. Qed.
+Print Assumptions tail_partial.
+Theorem tail_string_refuted : ~ tail_full_statement.
+Proof. exact tail_string_refuted_lemma. Qed.
+Print Assumptions tail_string_refuted.
 Theorem append_correct : forall a x, good a -> good x -> allowed (is_funrep a) (spec_append (norm a) (norm x)) (ModuleAppend a x).
 Proof. exact append_lemma. Qed.
 Print Assumptions append_correct.
-Theorem subseq_correct : forall a m n, good a ->
+Theorem subseq_partial : forall a m n, good a -> (forall s, a <> VStr s) ->
   allowed (is_funrep a) (spec_subseq (norm a) (norm m) (norm n)) (ModuleSubSeq a m n).
-Proof. exact subseq_lemma. Qed.
-Print Assumptions subseq_correct.
+Proof. exact subseq_partial_lemma. Qed.
+Print Assumptions subseq_partial.
+Theorem subseq_string_refuted : ~ subseq_full_statement.
+Proof. exact subseq_string_refuted_lemma. Qed.
+Print Assumptions subseq_string_refuted.
 
 (* ---- functions ---- *)
 Theorem colongt_correct : forall k v, good k -> good v ->
